@@ -36,7 +36,7 @@ func init() {
 			}
 			return []runner.Phase{
 				{Name: "frames", Variant: "plain", Cases: nf, Run: c05frameCase, CaseTimeout: 120 * time.Second,
-					Required: []string{"frames_mutated", "mut_truncate", "mut_field", "mut_header", "mut_flip", "mut_random", "parse_errors", "parse_accepted", "rows_iterated", "short_rowsets"}},
+					Required: []string{"frames_mutated", "mut_truncate", "mut_field", "mut_header", "mut_flip", "mut_random", "parse_errors", "parse_accepted", "rows_iterated", "short_rowsets", "custom_class_rowsets"}},
 				{Name: "values", Variant: "plain", Cases: nv, Run: c05valueCase, CaseTimeout: 120 * time.Second,
 					Required: []string{"values_mutated", "unmarshal_errors", "unmarshal_accepted"}},
 				{Name: "type-strings", Variant: "plain", Cases: nt, Run: c05typeStringCase, CaseTimeout: 120 * time.Second,
@@ -44,7 +44,7 @@ func init() {
 				{Name: "schema-rows", Variant: "plain", Cases: nt, Run: c05schemaCase, CaseTimeout: 120 * time.Second,
 					Required: []string{"schema_row_sets"}},
 				{Name: "sessions", Variant: "race", Cases: ns, Run: c05sessionCase, CaseTimeout: 120 * time.Second,
-					Required: []string{"sessions", "unexpected_in_handshake", "unexpected_reply_to_request", "hostile_events", "mutated_replies", "sessions_with_event_classes_disabled", "events_on_unregistered_connection", "unexpected_reply_to_heartbeat", "inconsistent_prepared_answers", "results_with_pages_of_different_width", "rows_read_from_shifting_pages"}},
+					Required: []string{"sessions", "unexpected_in_handshake", "unexpected_reply_to_request", "hostile_events", "mutated_replies", "sessions_with_event_classes_disabled", "events_on_unregistered_connection", "unexpected_reply_to_heartbeat", "inconsistent_prepared_answers", "results_with_pages_of_different_width", "rows_read_from_shifting_pages", "protocol_discovery_errors"}},
 			}
 		},
 	})
@@ -370,6 +370,45 @@ func c05frameCase(c *runner.Ctx, i int) {
 		frame, _ = cqlref.BuildFrame(version, 1, cqlref.OpResult, nil, w, nil)
 		mut, class, detail, name = frame, "short-rowset", fmt.Sprintf("%d columns, rows_count %d, %d row bytes", ncols, nrows, len(w.B)), "rows-handmade"
 		c.Add("short_rowsets", 1)
+	}
+	if i%61 == 7 {
+		// columns described as a *custom* type whose class is one of Cassandra's own marshal classes, bare or
+		// parametrised, known or not: whatever the driver makes of the description, reading the rows must not
+		// panic (the row iteration trusts the type tag)
+		version = 1 + r.Intn(5)
+		base := []string{"ListType", "SetType", "MapType", "TupleType", "UserType", "ReversedType", "FrozenType", "CompositeType", "DurationType", "Int32Type", "UTF8Type", "ColumnToCollectionType", "NoSuchType", ""}[r.Intn(14)]
+		cls := base
+		if r.Intn(3) != 0 && base != "" {
+			cls = "org.apache.cassandra.db.marshal." + base
+		}
+		switch r.Intn(4) {
+		case 0:
+			cls += "(org.apache.cassandra.db.marshal.Int32Type)"
+		case 1:
+			cls += "(org.apache.cassandra.db.marshal.UTF8Type,org.apache.cassandra.db.marshal.Int32Type)"
+		}
+		ncols := 1 + r.Intn(2)
+		var cols []cqlref.Column
+		for k := 0; k < ncols; k++ {
+			cols = append(cols, cqlref.Column{Keyspace: "ks", Table: "t", Name: fmt.Sprintf("c%d", k), Type: &cqlref.Type{ID: cqlref.TCustom, Custom: cls}})
+		}
+		var rows [][][]byte
+		for k := 1 + r.Intn(3); k > 0; k-- {
+			var row [][]byte
+			for x := 0; x < ncols; x++ {
+				cell := make([]byte, r.Intn(12))
+				r.Read(cell)
+				if r.Intn(4) == 0 {
+					cell = nil
+				}
+				row = append(row, cell)
+			}
+			rows = append(rows, row)
+		}
+		w := cqlref.BodyRows(version, &cqlref.RowsSpec{Meta: cqlref.Metadata{Global: true, Columns: cols, ColCount: ncols}, Rows: rows})
+		frame, _ = cqlref.BuildFrame(version, 1, cqlref.OpResult, nil, w, nil)
+		mut, class, detail, name = frame, "custom-class", fmt.Sprintf("%d columns of custom type %q, %d rows", ncols, cls, len(rows)), "rows-handmade"
+		c.Add("custom_class_rowsets", 1)
 	}
 	if class == "" {
 		return
